@@ -639,16 +639,20 @@ def run_property(prop_id: str, tier: str, seed: int) -> int:
     # hang confirmation (only where non-termination is part of the property)
     inconclusive = n_timeouts
     if prop.hang_is_violation and timeouts:
+        hard = [jdump(c) for p in parts if p.get("extra", {}).get("workers_killed") for c in p["timeouts"]]
+        # cases that cost a worker its life (120 s, watchdog ignored) first; one confirming run is enough for those
+        timeouts.sort(key=lambda c: jdump(c) not in hard)
         for case in timeouts[:3]:
             hung = 0
-            for _ in range(3):
+            need = 1 if jdump(case) in hard else 3
+            for _ in range(need):
                 try:
                     run_case_guarded(prop, case, disabled, 60)
                 except CaseTimeout:
                     hung += 1
                 except RuntimeError:
                     break
-            if hung == 3:
+            if hung == need:
                 buckets.setdefault(
                     "hang",
                     {
@@ -683,13 +687,15 @@ def run_property(prop_id: str, tier: str, seed: int) -> int:
     min_budget = 45 if tier == "quick" else 180
     for b, info in sorted(new_buckets.items(), key=lambda kv: kv[1]["size"])[:5]:
         case = info["case"]
-        if os.environ.get("LV_NO_SHRINK") != "1":
+        if os.environ.get("LV_NO_SHRINK") != "1" and b != "hang":
             try:
                 case = minimise(prop, b, info, tier, disabled, min_budget)
             except Exception:
                 case = info["case"]
         failure = info["failure"]
         try:
+            if b == "hang":  # never re-run a hanging case in this process: the watchdog may not reach it
+                raise CaseTimeout()
             res = run_case(prop, case, disabled)
             for f in res.failures:
                 if f.bucket == b:
